@@ -400,6 +400,12 @@ func (r *Run) exec(op wx.Op, o *obs) (pv interface{}) {
 		}
 	case OpRelGet:
 		w.Relations().Get(m.Slots[op.A].H, r.ids[op.B])
+	case OpReadDead:
+		if op.C == 0 {
+			w.Has(m.Slots[op.A].H, r.ids[op.B])
+		} else {
+			w.Get(m.Slots[op.A].H, r.ids[op.B])
+		}
 	case OpRelSet:
 		w.Relations().Set(m.Slots[op.A].H, r.ids[op.B], m.handle(op.C))
 	case OpRelExchange:
